@@ -541,6 +541,146 @@ func RunCovMono(w *World, r *Report, br *boundsRun) {
 		}
 	}
 	r.Floor("covmono", 2)
+	runCovDense(w, r, br, fn)
+}
+
+// runCovDense: the value coverage.Read stores for a glyph is the number of
+// glyphs inserted before it, so that (with distinct keys, rule covmono) a
+// table of n glyphs maps them onto 0..n-1.
+func runCovDense(w *World, r *Report, br *boundsRun, fn *ssa.Function) {
+	r.Rule("covdense: every value coverage.Read stores into the table is an insertion counter: a variable that starts at 0 and is incremented by exactly 1 once per executed insertion (the insertion and the increment are both executed exactly once in every completed iteration of the same loop, and the loop contains no other insertion) — with covmono the indices of a table with n glyphs are exactly 0..n-1, which the coverage/array pairing of the subtable readers relies on")
+	loops := naturalLoops(fn)
+	innermost := func(b *ssa.BasicBlock) *natLoop {
+		var best *natLoop
+		for _, l := range loops {
+			if l.body[b] && (best == nil || len(l.body) < len(best.body)) {
+				best = l
+			}
+		}
+		return best
+	}
+	oncePerIter := func(l *natLoop, b *ssa.BasicBlock) bool {
+		if innermost(b) != l {
+			return false
+		}
+		for _, lt := range l.latches {
+			if !b.Dominates(lt) {
+				return false
+			}
+		}
+		return true
+	}
+	// counterOf: "" when v is an insertion counter for the insertion mu in block b
+	counterOf := func(v ssa.Value, b *ssa.BasicBlock) string {
+		why := ""
+		web := map[*ssa.Phi]bool{}
+		var adds []*ssa.BinOp
+		var visit func(v ssa.Value)
+		visit = func(v ssa.Value) {
+			switch x := v.(type) {
+			case *ssa.Phi:
+				if web[x] {
+					return
+				}
+				web[x] = true
+				for _, e := range x.Edges {
+					visit(e)
+				}
+			case *ssa.Const:
+				if c, ok := bconstInt(x); !ok || c != 0 {
+					why = "the counter starts from " + x.Name() + ", not 0"
+				}
+			case *ssa.BinOp:
+				adds = append(adds, x)
+			default:
+				why = "the stored value depends on " + v.Name() + " (" + v.String() + "), which is not a counter of insertions"
+			}
+		}
+		visit(v)
+		if len(web) == 0 && why == "" {
+			why = "the stored value is not a loop-carried counter"
+		}
+		for _, a := range adds {
+			if why != "" {
+				break
+			}
+			ph, isPhi := a.X.(*ssa.Phi)
+			c, isC := bconstInt(a.Y)
+			if a.Op != token.ADD || !isPhi || !web[ph] || !isC || c != 1 {
+				why = "the counter is updated by " + a.String() + ", not by +1"
+				break
+			}
+			l := innermost(a.Block())
+			if l == nil || !l.body[b] {
+				why = "the increment is not in the loop of the insertion"
+				break
+			}
+			if !oncePerIter(l, a.Block()) || !oncePerIter(l, b) {
+				why = "the insertion and the increment of the counter are not both executed exactly once per completed iteration (one of them is conditional or in a nested loop)"
+				break
+			}
+			n := 0
+			for lb := range l.body {
+				for _, li := range lb.Instrs {
+					if m2, ok := li.(*ssa.MapUpdate); ok && typeKey(m2.Map.Type()) == modPath+"/opentype/coverage.Table" {
+						n++
+					}
+				}
+			}
+			if n != 1 {
+				why = fmt.Sprintf("the loop contains %d insertions for one increment", n)
+			}
+		}
+		if why == "" && len(adds) == 0 {
+			why = "the counter is never incremented"
+		}
+		return why
+	}
+	p := br.prover(fn)
+	for _, b := range fn.Blocks {
+		for _, in := range b.Instrs {
+			mu, ok := in.(*ssa.MapUpdate)
+			if !ok || typeKey(mu.Map.Type()) != modPath+"/opentype/coverage.Table" {
+				continue
+			}
+			key := r.MkKey("covdense", fnName(fn), "value stored into the coverage table")
+			why := counterOf(mu.Value, b)
+			how := "stored value counts the insertions made so far"
+			if why != "" {
+				// the value may be a different expression that provably equals such a counter
+				for _, hb := range fn.Blocks {
+					if why == "" || !hb.Dominates(b) {
+						continue
+					}
+					for _, hi := range hb.Instrs {
+						ph, ok := hi.(*ssa.Phi)
+						if !ok {
+							break
+						}
+						if !isIntType(ph.Type()) || counterOf(ph, b) != "" {
+							continue
+						}
+						d, ok := p.linOf(mu.Value).sub(blatom(atom{aVal, ph}))
+						if !ok {
+							continue
+						}
+						dn, ok2 := d.scale(-1)
+						if ok2 && p.proveAt(b, d) && p.proveAt(b, dn) {
+							why = ""
+							how = "stored value is shown equal to " + ph.Comment + ", which counts the insertions made so far"
+							break
+						}
+					}
+				}
+			}
+			if why == "" {
+				r.OK("covdense", key, w.Pos(mu.Pos()), how)
+			} else {
+				r.Fail("covdense", key, w.Pos(mu.Pos()), why+": the coverage indices would no longer be 0..n-1, and the subtable readers, which cut the per-index arrays to len(cov), would leave indices without an array element (panic in apply)", nil)
+			}
+		}
+	}
+	r.Floor("covdense", 2)
 }
 
 // condScalerTypes: the scaler types header.Read lets through are exactly the
